@@ -91,6 +91,15 @@ CHECKS = {
              "against every grid point each run, plus random rings up to 2^26.",
         note=NOTE_COMMON + "Partial: termination/correctness of the Euclidean loop and the fold over all edges are oracle-checked (exhaustively on small grids), not proved.",
     ),
+    "C12": dict(
+        technique="Lean 4 theorems over linearly ordered fields (soundness of the same-side exits, homogeneous-coordinate point lies on both lines, translation invariance of the formula) + bit-exact correspondence + exact rational point-set oracle with exhaustive small grids",
+        text="Theorems: both ends strictly on one side of the other carrier implies disjoint (C12_same_side_disjoint), the homogeneous-coordinate quotient is on "
+             "both carrier lines whenever the weight is non-zero (C12_hcoords_on_both_lines) and the envelope-centre normalisation cancels exactly "
+             "(C12_hcoords_translation). The whole robust routine (classification, endpoint copying order, collinear case analysis, computed point with "
+             "fallbacks) is mirrored and compared bit for bit; the oracle intersects the two point sets in exact arithmetic: type, exact shared endpoint, "
+             "exact overlap endpoints, point accuracy on integer grids, and agreement of the non-robust strategy on representable inputs.",
+        note=NOTE_COMMON + "Partial: the collinear case analysis and the rounding distance of the computed point are oracle-checked (exhaustively on the 3x3 grid), not proved.",
+    ),
 }
 
 _PENDING = "check not built yet in this session (work in progress; see DESIGN.md §9 build order)"
